@@ -814,7 +814,7 @@ public:
     promise_with_default &operator=(promise_with_default &&other) {
         if (this != &other) {
             promise<T>::operator=(std::move(other));
-            def = std::move(def);
+            def = std::move(other.def);
         }
         return *this;
     }
